@@ -42,6 +42,7 @@ type Scenario struct {
 	PageLimit uint32     `json:"page_limit"`
 	Threads   bool       `json:"threads"`
 	Host      bool       `json:"host"`
+	Tail      bool       `json:"tail"` // tail-call feature enabled
 }
 
 // Obs is what one engine showed for one step.
@@ -90,6 +91,7 @@ type engineRun struct {
 	rt       wazero.Runtime
 	mods     map[string]api.Module
 	bins     map[int][]byte
+	cms      map[int]wazero.CompiledModule // one CompiledModule per module spec: sibling instances share it
 	compiler bool
 }
 
@@ -112,11 +114,14 @@ func newEngineRun(sc *Scenario, compiler bool) (*engineRun, error) {
 	if sc.Threads {
 		feat |= experimental.CoreFeaturesThreads
 	}
+	if sc.Tail {
+		feat |= experimental.CoreFeaturesTailCall
+	}
 	cfg = cfg.WithCoreFeatures(feat)
 	if sc.PageLimit != 0 && sc.PageLimit != DefaultPageLimit {
 		cfg = cfg.WithMemoryLimitPages(sc.PageLimit)
 	}
-	r := &engineRun{ctx: ctx, rt: wazero.NewRuntimeWithConfig(ctx, cfg), mods: map[string]api.Module{}, bins: map[int][]byte{}, compiler: compiler}
+	r := &engineRun{ctx: ctx, rt: wazero.NewRuntimeWithConfig(ctx, cfg), mods: map[string]api.Module{}, bins: map[int][]byte{}, cms: map[int]wazero.CompiledModule{}, compiler: compiler}
 	if sc.Host {
 		if err := instantiateHost(ctx, r.rt); err != nil {
 			r.rt.Close(ctx)
@@ -201,9 +206,14 @@ func (r *engineRun) exec(sc *Scenario, st *Step) (o Obs) {
 			bin, _ = Build(sc.Mods[st.Mod])
 			r.bins[st.Mod] = bin
 		}
-		cm, err := r.rt.CompileModule(r.ctx, bin)
-		if err != nil {
-			return Obs{Err: "compile:" + firstLine(err.Error())}
+		cm, ok := r.cms[st.Mod]
+		if !ok {
+			var err error
+			cm, err = r.rt.CompileModule(r.ctx, bin)
+			if err != nil {
+				return Obs{Err: "compile:" + firstLine(err.Error())}
+			}
+			r.cms[st.Mod] = cm
 		}
 		mod, err := r.rt.InstantiateModule(r.ctx, cm, wazero.NewModuleConfig().WithName(st.Inst))
 		if err != nil {
